@@ -193,7 +193,7 @@ func (cs *cursorSession) run() {
 			vs = append(vs, v)
 		}
 		if okv {
-			fixed = append(fixed, vh.E("").Add("c", c).Add("vs", vs))
+			fixed = append(fixed, (&vh.Ev{}).Add("c", c).Add("vs", vs))
 		}
 	}
 	hcols := cs.hdr.Columns
